@@ -1915,8 +1915,12 @@ class PyCdlib:
         num_sectors = utils.ceiling_div(data_len, self.logical_block_size)
         csum = 0
         curr_sector = 0
+        left = data_len
         while curr_sector < num_sectors:
-            block = data_fp.read(self.logical_block_size)
+            # The file object may hold more than the data_len bytes that
+            # make up the boot file; none of those belong in the checksum.
+            block = data_fp.read(min(self.logical_block_size, left))
+            left -= len(block)
             block = block.ljust(2048, b'\x00')
             i = 0
             if curr_sector == 0:
